@@ -90,9 +90,16 @@ func measuredEpoch(cs *caseSpec) int {
 		if id.Age < 3 && id.Age+1 > e {
 			e = id.Age + 1
 		}
+		if backFromSuspension(id) && e < 2 {
+			e = 2
+		}
 	}
 	return e
 }
+
+// an old Verified identity WITHOUT stake: it sat out every earlier epoch suspended (no reward ever reached it) and came
+// back at the validation before the measured epoch
+func backFromSuspension(id idSpec) bool { return id.Age >= 3 && id.Prev == "V" && id.Stake == 0 }
 
 var stOf = map[string]state.IdentityState{"U": state.Undefined, "C": state.Candidate, "N": state.Newbie, "V": state.Verified, "H": state.Human,
 	"S": state.Suspended, "Z": state.Zombie, "K": state.Killed}
@@ -318,6 +325,13 @@ func newWorld(seed int64, hid int, cs *caseSpec, out *tr.W, st *runStats) *world
 		id := cs.Ids[i-1]
 		prev := stOf[id.Prev]
 		switch {
+		case backFromSuspension(id):
+			tl := make([]state.IdentityState, E+1)
+			for e := 0; e < E; e++ {
+				tl[e] = state.Suspended
+			}
+			tl[E] = state.Verified
+			w.tl[i] = tl
 		case id.Age >= 3:
 			w.tl[i] = oldTimeline(E, prev, invEpochs[i])
 		default:
@@ -604,6 +618,9 @@ func (w *world) inject(height uint64, epoch int) *epochIn {
 				continue // a candidate of the genesis state waits for the epoch that gives it its age
 			}
 			next := w.tl[i][epoch+1]
+			if cur == next && (cur == state.Suspended || cur == state.Zombie) {
+				continue // sits the epoch out (the scenario keeps its status)
+			}
 			c.State = uint8(next)
 			c.Missed = (cur == state.Verified || cur == state.Human) && next == state.Suspended || cur == state.Suspended && next == state.Zombie
 		}
@@ -861,7 +878,7 @@ func (w *world) record(in *epochIn, height uint64, blk *types.Block, pre *sim.Le
 			if id.Deleg && k != w.pool {
 				wantDel = w.pool
 			}
-			if p0.State != stOf[id.Prev] || !ageOk || m["inviter"].(int) != wantInv || m["del"].(int) != wantDel || (id.Stake > 0) != m["stk"].(bool) && !(id.Stake == 0) {
+			if p0.State != stOf[id.Prev] || !ageOk || m["inviter"].(int) != wantInv || m["del"].(int) != wantDel || (id.Stake > 0) != m["stk"].(bool) {
 				exact = false
 			}
 		}
